@@ -10,6 +10,11 @@ def registry(c, key, schema, optname, opts, tier):
     if not pkgdir:
         c.problems.append("generation failed for %s [%s]: %s" % (key, optname, txt[-600:]))
         return
+    rc, txt = sh(["go", "build", "./%s/gen/..." % k], cwd=c.mod)
+    if rc != 0:
+        # C14's subject (not claimed): the generated code of this schema/layout does not build, so its registry cannot be executed
+        c.not_covered.append({"harness": "VerifC17Registry", "schema": "%s[%s]/registry" % (key, optname), "reason": "generated code does not build: " + txt.strip().split("\n")[-1][:200]})
+        return
     canon = os.path.join(c.mod, k, "canonical.txt")
     rc, txt = sh([c.tl2gen, "--language=canonical", "--outfile=" + canon, schema], cwd=c.mod)
     if rc != 0 or not os.path.exists(canon):
